@@ -182,6 +182,8 @@ def dir_plans(rng, tier):
     plans = {
         'e0': [], 'e1': [1], 'e1b': [255], 'e2': [8, 9], 'e3': [16, 1, 17],
         'e9': [rng.randint(1, 255) for _ in range(9)],
+        'r8': [3, 12, 5, 14, 7, 8, 9, 18, 1, 10, 6, 11],          # every residue of the name length mod 8
+
         'e40': [1, 2, 3, 4, 5, 6, 7, 8, 9, 15, 16, 17, 23, 24, 25, 247, 248, 249, 250, 251, 252, 253, 254, 255] + [rng.randint(2, 60) for _ in range(16)],
         'e300': all_len + [rng.randint(2, 40) for _ in range(45)],
         'e3000': [1, 255, 254, 129, 64, 65, 66, 67, 68, 69, 70, 71] + [rng.randint(3, 12) for _ in range(3000 - 12)],
@@ -321,8 +323,8 @@ def run_history(cl, rng, dc, nodeid, fhs, streams, noise_rate, plus_refs, max_re
         if s.done or s.steps > 3500: live.remove(s)
     return hist
 
-def do_request(cl, dc, nodeid, fh, size, off, plus, hist, stream, plus_refs):
-    r = cl.readdir(nodeid, fh, size, off, plus)
+def do_request(cl, dc, nodeid, fh, size, off, plus, hist, stream, plus_refs, extra=16):
+    r = cl.readdir(nodeid, fh, size, off, plus, extra=extra)
     rec = {'fh': fh, 'size': size, 'off': off, 'plus': plus, 'stream': stream.sid if stream else None}
     if r == 'panic' or r is None:
         rec['res'] = 'panic' if r == 'panic' else 'noreply'
@@ -622,6 +624,26 @@ def exact_chunk_sizes(dc, plus, k=0):
             if not out or out[-1][1] != b[-1]: out.append((size, b[-1]))
     return out
 
+def sweep_history(cl, dc, nodeid, fh, plus, plus_refs, k0=0):
+    """every requested size, all residues mod 8, in a window around the entry boundaries: from the size of the first
+    entry to the size of the first three entries + 8, from the start of the directory and from the offset of its first
+    visible entry; the reply buffer is 64 bytes larger than size + header, so a reply that exceeds `size` can be seen
+    as such; each reply is followed by a continuation from its last entry (exactly-once across the chunk boundary)"""
+    hist = []
+    o = dc.oracle
+    do_request(cl, dc, nodeid, fh, 4096, 0, False, hist, None, plus_refs)          # prime the fresh handle
+    vis = [o[i] for i in dc.visible]
+    starts = [(0, 0)] + ([(vis[0][2], 1)] if len(vis) > 4 else [])
+    for off, vi in starts:
+        w = vis[vi:vi + 3]
+        lo = fuse_size(w[0][0], plus); hi = sum(fuse_size(e[0], plus) for e in w) + 8
+        dots = sum(e[4] for e in o if is_dot(e[0]))
+        for size in range(max(lo, 24), hi + dots + 1):
+            rec = do_request(cl, dc, nodeid, fh, size, off, plus, hist, None, plus_refs, extra=80)
+            if rec['res'] == 'ok' and rec['ents'] and size % 3 == 0:
+                do_request(cl, dc, nodeid, fh, 4096, rec['ents'][-1]['off'], plus, hist, None, plus_refs, extra=80)
+    return hist
+
 def goback_history(cl, rng, dc, nodeid, fhs, plus_refs):
     """deterministic go-back patterns on ONE handle: a chunk that ends at X (cookie cached = X), then a request from
     another offset (the end-of-directory cookie: empty reply; offset 0; some other entry), then going back to X"""
@@ -777,6 +799,23 @@ def run_check(tier, seed):
                             exprs.append((dn, model_exprs(dn, noopendir, fhs, hist, len(dc.oracle) <= 12, kind == 'passthrough')))
                             expr_meta.append({'dir': dc.label, 'config': cfgdesc, 'pattern': 'go-back after another offset on one handle',
                                               'requests': [{k: r[k] for k in ('fh', 'size', 'off', 'plus')} for r in hist][:60], 'n_requests': len(hist)})
+                        if dc.name == 'r8' and kind == 'passthrough':
+                            # deterministic class: every size (all residues mod 8) around the entry boundaries
+                            for plus in (False, True):
+                                if not noopendir:
+                                    for fh in fhs: cl.releasedir(nodeid, fh)
+                                    fhs = []
+                                    for _ in range(3):
+                                        err, fh = cl.opendir(nodeid)
+                                        if err: raise FuseError('opendir -> %d' % err)
+                                        fhs.append(fh)
+                                hist = sweep_history(cl, dc, nodeid, fhs[0], plus, plus_refs)
+                                evals += len(hist)
+                                findings += judge_history(dc, hist, [], cfgdesc)
+                                dn = 'dir_%s_%s' % (fsname, dc.name); headers[dn] = dc
+                                exprs.append((dn, model_exprs(dn, noopendir, fhs, hist, False, kind == 'passthrough')))
+                                expr_meta.append({'dir': dc.label, 'config': cfgdesc, 'pattern': 'size sweep, all residues mod 8, plus=%s' % plus,
+                                                  'requests': [{k: r[k] for k in ('fh', 'size', 'off', 'plus')} for r in hist][:60], 'n_requests': len(hist)})
                         if len(dc.oracle) <= 400:
                             evals += check_plus_refs(cl, plus_refs, None, findings, cfgdesc)
                             evals += check_no_stray_refs(cl, nodeid, dc, findings, cfgdesc)
